@@ -22,9 +22,9 @@ sys.path.insert(0, VERIF)
 
 import z3                                            # noqa: E402
 from pyvc import frontend, contracts, verify, solve  # noqa: E402
-from pyvc import ext_numpy, ext_pandas                # noqa: E402,F401
+from pyvc import allext                               # noqa: E402,F401
 from pyvc.values import Unsupported                   # noqa: E402
-from pyvc import plugins, lemmas_c06                  # noqa: E402,F401
+from pyvc import plugins                              # noqa: E402,F401
 
 VENV_PY = "/venv/bin/python"
 IDEALISATIONS = [
@@ -114,7 +114,7 @@ def main(argv=None):
     t_start = time.time()
     seed = int(os.environ.get("VERIF_SEED", "0") or 0)
     tier = args.tier if args.tier in ("quick", "thorough") else "quick"
-    timeout = 20 if tier == "quick" else 120
+    timeout = 10 if tier == "quick" else 60
     try:
         return run_property(prop, tier, seed, timeout, args, t_start)
     except Exception:
@@ -178,7 +178,7 @@ def run_property(prop, tier, seed, timeout, args, t_start):
     undec = [r["idx"] for r in results if r["status"] == "unknown" and not is_canary[r["idx"]]]
     if undec:
         sub = [all_obl[i] for i in undec]
-        r2 = solve.solve_all(sub, timeout=timeout * 4, seed=seed + 7)
+        r2 = solve.solve_all(sub, timeout=timeout * 3, seed=seed + 7)
         for i, r in zip(undec, r2):
             r["idx"] = i
             r["retried"] = True
